@@ -895,3 +895,65 @@ REG.spec('agent/scheduler/base.py:AgentSchedulingComponent._schedule_tasks#loop'
     loops = {'1': [('a-release-is-followed-by-a-wait-pool-scan-in-the-next-iteration', 'implies(owed, resources)', 'dsinv'),
                    'scans >= old(scans)']},
     serves = ['C04'])
+
+
+# ------------------------------------------------------------------------------
+# C08: cancel of tasks parked in a raptor backlog (scheduler control_cb): the named
+# tasks leave their backlog and are reported CANCELED, the others stay
+RBTask  = T.Rec('RBTask', uid=T.Str, state=T.Opt(T.Str))
+RBTaskL = T.List(RBTask)
+RBMap   = T.Map(T.Str, RBTaskL)
+REG.define('rb_in(xs, x)', 'exists(lambda j_: 0 <= j_ < len(xs) and xs[j_] == x)')
+REG.define('rb_distinct(xs)', 'forall(lambda a_, b_: implies(0 <= a_ < b_ < len(xs), xs[a_].uid != xs[b_].uid))')
+
+REG.spec('agent/scheduler/base.py:AgentSchedulingComponent.control_cb#raptor-cancel',
+    fragment = 'for queue in self._raptor_tasks:',
+    params   = dict(uids=T.List(T.Str), to_cancel=RBTaskL),
+    self     = dict(_raptor_tasks=RBMap),
+    locals   = dict(matches=RBTaskL),
+    requires = ['forall(lambda q: implies(indom(self._raptor_tasks, q), rb_distinct(at(self._raptor_tasks, q))), Str)'],
+    modifies = ['self._raptor_tasks', 'to_cancel'],
+    raises   = {},
+    ensures  = [
+      ('only-named-tasks-are-canceled', 'forall(lambda k: implies(len(old(to_cancel)) <= k < len(to_cancel), to_cancel[k].uid in uids))'),
+      ('no-backlog-appears-or-disappears', 'forall(lambda q: indom(self._raptor_tasks, q) == indom(old(self._raptor_tasks), q), Str)'),
+      ('what-stays-in-a-backlog-was-there-and-is-not-named',
+       'forall(lambda q: implies(indom(self._raptor_tasks, q), forall(lambda j: implies(0 <= j < len(at(self._raptor_tasks, q)), '
+       'at(self._raptor_tasks, q)[j].uid not in uids and rb_in(at(old(self._raptor_tasks), q), at(self._raptor_tasks, q)[j])))), Str)'),
+      ('bystanders-stay-in-their-backlog',
+       'forall(lambda q: implies(indom(self._raptor_tasks, q), forall(lambda i: implies(0 <= i < len(at(old(self._raptor_tasks), q)) and '
+       'at(old(self._raptor_tasks), q)[i].uid not in uids, rb_in(at(self._raptor_tasks, q), at(old(self._raptor_tasks), q)[i])))), Str)'),
+      ('every-named-task-of-a-backlog-is-canceled',
+       'forall(lambda q: implies(indom(old(self._raptor_tasks), q), forall(lambda i: implies(0 <= i < len(at(old(self._raptor_tasks), q)) and '
+       'at(old(self._raptor_tasks), q)[i].uid in uids, rb_in(to_cancel, at(old(self._raptor_tasks), q)[i])))), Str)'),
+    ],
+    loops = {
+      '1': ['forall(lambda q: indom(self._raptor_tasks, q) == indom(old(self._raptor_tasks), q), Str)',
+            'len(to_cancel) >= len(old(to_cancel))',
+            'forall(lambda k: implies(len(old(to_cancel)) <= k < len(to_cancel), to_cancel[k].uid in uids))',
+            'forall(lambda m: implies(i_queue <= m < len(keys_queue), at(self._raptor_tasks, keys_queue[m]) == at(old(self._raptor_tasks), keys_queue[m])))',
+            'forall(lambda m: implies(0 <= m < i_queue, forall(lambda j: implies(0 <= j < len(at(self._raptor_tasks, keys_queue[m])), '
+            'at(self._raptor_tasks, keys_queue[m])[j].uid not in uids and rb_in(at(old(self._raptor_tasks), keys_queue[m]), at(self._raptor_tasks, keys_queue[m])[j])))))',
+            'forall(lambda m: implies(0 <= m < i_queue, forall(lambda i: implies(0 <= i < len(at(old(self._raptor_tasks), keys_queue[m])) and '
+            'at(old(self._raptor_tasks), keys_queue[m])[i].uid not in uids, rb_in(at(self._raptor_tasks, keys_queue[m]), at(old(self._raptor_tasks), keys_queue[m])[i])))))',
+            'forall(lambda m: implies(0 <= m < i_queue, forall(lambda i: implies(0 <= i < len(at(old(self._raptor_tasks), keys_queue[m])) and '
+            'at(old(self._raptor_tasks), keys_queue[m])[i].uid in uids, rb_in(to_cancel, at(old(self._raptor_tasks), keys_queue[m])[i])))))'],
+      '1.1': ['forall(lambda q: indom(self._raptor_tasks, q) == indom(old(self._raptor_tasks), q), Str)',
+              'forall(lambda q: implies(q != queue, at(self._raptor_tasks, q) == at(at_head("1", self._raptor_tasks), q)), Str)',
+              'len(to_cancel) == len(at_head("1", to_cancel)) + i_task',
+              'forall(lambda k: implies(0 <= k < len(at_head("1", to_cancel)), to_cancel[k] == at_head("1", to_cancel)[k]))',
+              'forall(lambda k: implies(0 <= k < i_task, to_cancel[len(at_head("1", to_cancel)) + k] == matches[k]))',
+              'rb_distinct(at(self._raptor_tasks, queue))',
+              'forall(lambda k: implies(0 <= k < len(matches), matches[k].uid in uids))',
+              'forall(lambda k: implies(len(old(to_cancel)) <= k < len(to_cancel), to_cancel[k].uid in uids))',
+              'len(at_head("1", to_cancel)) >= len(old(to_cancel))',
+              # B against B0 = the backlog at the head of this outer iteration
+              'forall(lambda j: implies(0 <= j < len(at(self._raptor_tasks, queue)), rb_in(at(old(self._raptor_tasks), queue), at(self._raptor_tasks, queue)[j])))',
+              'forall(lambda j: implies(0 <= j < len(at(self._raptor_tasks, queue)) and at(self._raptor_tasks, queue)[j].uid in uids, '
+              'exists(lambda k: i_task <= k < len(matches) and matches[k] == at(self._raptor_tasks, queue)[j])))',
+              'forall(lambda i: implies(0 <= i < len(at(old(self._raptor_tasks), queue)) and at(old(self._raptor_tasks), queue)[i].uid not in uids, '
+              'rb_in(at(self._raptor_tasks, queue), at(old(self._raptor_tasks), queue)[i])))',
+              'forall(lambda k: implies(i_task <= k < len(matches), rb_in(at(self._raptor_tasks, queue), matches[k])))'],
+    },
+    opts   = dict(parallel=8),
+    serves = ['C08'])
